@@ -68,6 +68,26 @@ def gen(t, tier):
             ops.insert(t.choice(len(ops) + 1), _gen_defrag(t))
         ops.append(_gen_defrag(t))
         sc['ops'] = ops
+    elif t.chance(0.35):
+        # contention: three or four writers, every operation a store or a remove in ONE bundle (the windows that need a
+        # third party - a lock file removed under its new holder - only open with more than two writers)
+        nproc = t.randint(3, 4)
+        sc['policy'] = t.pick([['sticky', 0.3], ['sticky', 0.6], ['random'], ['random']])
+        sc['shared'] = False
+        one = [[0, 0, 8], [1, 0, 8], [0, 1, 8], [126, 127, 8], [127, 127, 8], [5, 9, 8], [100, 3, 8], [64, 64, 8]]
+        sc['pool'] = pool = one[:2 * nproc]
+        procs = []
+        for p in range(nproc):
+            mine = pool[2 * p:2 * p + 2]
+            ops = []
+            for _ in range(t.randint(1, 3)):
+                if ops and t.chance(0.2):
+                    ops.append(['remove', t.pick(mine), None])
+                else:
+                    ops.append(['store', t.pick(mine), None, M.gen_payload(t, None, big=False)])
+            procs.append(ops)
+        sc['procs'] = procs
+        sc['ops'] = [_gen_defrag(t)] if t.chance(0.3) else []
     else:
         nproc = t.randint(2, 3)
         sc['policy'] = t.pick([['sticky', 0.1], ['sticky', 0.3], ['random']])
@@ -83,6 +103,10 @@ def gen(t, tier):
             procs.append(ops)
         sc['procs'] = procs
         sc['ops'] = [_gen_defrag(t)] if t.chance(0.5) else []
+    if mode == 'conc':
+        # let waiters' retry timers fire while the holder is still running (otherwise a waiter only ever wakes up after the
+        # holder has left unlock() completely)
+        sc['eager'] = bool(t.chance(0.6))
     return sc
 
 
@@ -233,7 +257,7 @@ def _run_seq(sc, tape, b, name, probes):
 
 def _run_conc(sc, tape, b, name, probes):
     version = sc['version']
-    w = World(tape, policy=tuple(sc['policy']), step_cap=200000)
+    w = World(tape, policy=tuple(sc['policy']), step_cap=200000, eager_time=bool(sc.get('eager')))
     sched = w.sched
     viol = []
     stored = {}          # coord -> set of every value any process stores there (incl. None for removes)
